@@ -743,6 +743,36 @@ def run_property(prop, tier, seed):
             for o in ops[::step][:3]:
                 samples.append(dict(op=o.line[:400], impl=[l[:300] for l in impl[o.idx][:3]], tag=o.tag))
 
+    # search for a failing input: a proof obligation, a regenerated fact or the correspondence broke, and the quick
+    # generators found no input on which an oracle or the safety class fails — look further (other seeds, the sizes of
+    # the thorough tier), time-boxed, before the violation is reported as no-failing-input-found
+    hard = [f for f in failures if f["kind"] in ("oracle", "safety")]
+    soft = [f for f in failures if f["kind"] == "correspondence"]
+    if tier == "quick" and (broken or soft) and not hard and os.path.exists(MODEL) and implname in bins and spec.get("generators") is not None:
+        t_search = time.time()
+        budget_s = float(os.environ.get("VERIF_SEARCH_SECONDS", "90"))
+        for extra_seed in (seed + 1, seed + 2, seed + 3, seed + 4):
+            if time.time() - t_search > budget_s:
+                break
+            small = dict(spec, generators=[dict(g, thorough=min(g.get("thorough", g["quick"]), g["quick"] * 6), subseeds=min(g.get("subseeds", 8), 4)) for g in spec["generators"]])
+            lines2 = gen_ops(prop, small, "thorough", extra_seed)
+            ops2 = parse_ops(lines2)
+            if not ops2:
+                continue
+            model2 = run_model(ops2)
+            impl2, _ = run_impl(bins[implname], ops2, watchdog_ms=spec.get("watchdog_ms", 5000))
+            fl2 = [f for f in compare(prop, spec, ops2, impl2, model2) if f["kind"] in ("oracle", "safety")]
+            evaluations += len(ops2)
+            if fl2:
+                log("  search: failing input found with seed %d (%d ops)" % (extra_seed, len(ops2)))
+                for f in fl2:
+                    f["search_seed"] = extra_seed
+                failures += fl2[:50]
+                ops, seed_for_replay = ops2, extra_seed
+                break
+        else:
+            log("  search: no failing input in %.0f s beyond the quick tier" % (time.time() - t_search))
+
     # extra, property-specific executors (concurrency harnesses etc.)
     for ex in spec.get("extra", []):
         r = ex(dict(prop=prop, tier=tier, seed=seed, bins=bins, repo=REPO, build=BUILD, verif=VERIF, model=MODEL))
